@@ -549,6 +549,7 @@ class Diverge(Exception):
     pass
 
 
+import re
 import re as _re
 # library operations that multiply their operands (or components of them) with one another
 PRODUCT_OPS = _re.compile(r'(::mul$|::mul_assign$|::dot$|::cross$|::determinant$|::length_squared$|::length$|::distance_squared$|::distance$|::project_onto$|::powi$|::normalize$)')
@@ -1199,7 +1200,7 @@ class Interp:
     def const(self, o):
         ty = o['ty']
         if 'fn' in o:
-            return FnItem(o['fn'], o.get('substs', ()), o.get('fn_crate'))
+            return FnItem(o.get('fn_resolved') or o['fn'], o.get('substs', ()), o.get('fn_resolved_crate') or o.get('fn_crate'))
         if 'closure' in o:
             return St('closure:' + o['closure'], None, {})
         if 'float_bits' in o:
@@ -1220,6 +1221,10 @@ class Interp:
             import struct
             xs = struct.unpack('<4d', bytes.fromhex(o['bytes'])[:32])
             return St('glam::DVec4', 'DVec4', {n: RF.const(Fraction(x)) for n, x in zip('xyzw', xs)})
+        if 'bytes' in o and ty.startswith('['):
+            v = _decode_array(ty, bytes.fromhex(o['bytes']))
+            if v is not None:
+                return v
         if o.get('deref_enum') and 'deref_bytes' in o:
             val = int.from_bytes(bytes.fromhex(o['deref_bytes']), 'little')
             return Ref(LV(Cell(Sym(nf.sym_atom('const:%s=%d' % (o['deref_ty'], val)), o['deref_ty']), o['deref_ty'], 'promoted')))
@@ -1343,6 +1348,9 @@ class Interp:
             x = read_lv(x.lv)
         if isinstance(x, St) and x.adt == 'array':
             return RF.const(len(x.fields))
+        if isinstance(x, Sym) and x.atom.kind == 'app' and x.atom.name in ('mut:std::vec::Vec::push', 'mut:std::vec::Vec::<T, A>::push') and len(x.atom.args) == 3:
+            # the vector after `push`: one element longer than before
+            return self.length_of(x.atom.args[1]) + 1
         return RF.atom(nf.app_atom('len', frozen(x)))
 
     def binop(self, op, a, b, lty=None):
@@ -1695,6 +1703,51 @@ def atoms_deep(x, acc=None):
     elif isinstance(x, Ref):
         atoms_deep(read_lv(x.lv), acc)
     return acc
+
+
+_PRIM = {'usize': (8, False), 'u64': (8, False), 'i64': (8, True), 'isize': (8, True), 'u32': (4, False), 'i32': (4, True), 'u8': (1, False), 'i8': (1, True), 'u16': (2, False), 'i16': (2, True)}
+
+
+def _array_ty(ty):
+    m = re.match(r'^\[(.+); (\d+)\]$', ty.strip())
+    return (m.group(1).strip(), int(m.group(2))) if m else None
+
+
+def _ty_size(ty):
+    if ty in _PRIM:
+        return _PRIM[ty][0]
+    if ty == 'f64':
+        return 8
+    a = _array_ty(ty)
+    if a:
+        es = _ty_size(a[0])
+        return None if es is None else es * a[1]
+    return None
+
+
+def _decode_array(ty, raw):
+    """A constant of (nested) array type over primitive integers / f64, given by its bytes -> array St of scalars."""
+    a = _array_ty(ty)
+    if not a:
+        return None
+    ety, n = a
+    es = _ty_size(ety)
+    if es is None or len(raw) < es * n:
+        return None
+    items = []
+    for i in range(n):
+        chunk = raw[i * es:(i + 1) * es]
+        if ety in _PRIM:
+            items.append(RF.const(int.from_bytes(chunk, 'little', signed=_PRIM[ety][1])))
+        elif ety == 'f64':
+            import struct
+            items.append(RF.const(Fraction(struct.unpack('<d', chunk)[0])))
+        else:
+            x = _decode_array(ety, chunk)
+            if x is None:
+                return None
+            items.append(x)
+    return arr(items)
 
 
 def discr_atom(v):
